@@ -288,7 +288,8 @@ class Bits:
 
     def _repr(self, classname: str, length: int, pos: int):
         pos_string = f', pos={pos}' if pos else ''
-        if hasattr(self, '_filename') and self._filename:
+        # The file can only be used to describe the bitstring while it is still the (immutable) view of that file.
+        if hasattr(self, '_filename') and self._filename and self._bitstore.immutable:
             return f"{classname}(filename={self._filename!r}, length={length}{pos_string})"
         else:
             s = self.__str__()
